@@ -37,8 +37,9 @@ def main():
                 continue
             if name.startswith("S-"):
                 rc, out = sh("./check C06 --tier quick", cwd=VERIF, env={"VERIF_REPO": wt})
-                caught = rc != 0 and any(ln.startswith("VIOLATION") and "no-failing-input-found" not in ln for ln in out.splitlines())
-                how = "C06 failing input" if caught else "MISSED"
+                vl = [ln for ln in out.splitlines() if ln.startswith("VIOLATION")]
+                caught = rc != 0 and bool(vl)
+                how = ("C06 failing input" if any("no-failing-input-found" not in ln for ln in vl) else "C06 obligation only") if caught else "MISSED"
             else:
                 rc, out = sh(f"{PY} -c \"{REGEN}\"", cwd=VERIF, env={"VERIF_REPO": wt, "PYTHONPATH": wt, "PYTHONHASHSEED": "0"})
                 errs = [ln for ln in out.splitlines() if ln.startswith("REGEN ")]
